@@ -22,6 +22,7 @@ from harness.C05 import gen, oracle, prelude
 THEOREMS = [
     "JanetModel.Props.C05.finished_never_resumes",
     "JanetModel.Props.C05.resume_finished_raises",
+    "JanetModel.Props.C05.cancel_root_chain_refused_unmarked",
     "JanetModel.Props.C05.status_monotone",
     "JanetModel.Props.C05.status_monotone_from_init",
     "JanetModel.Props.C05.finished_is_forever",
@@ -515,7 +516,20 @@ def run(ctx, only=None):
     guard_after = True
     try:
         ctx.gen("Fiber.lean", gen_fiber.render(ctx.build.tree if ctx.build.boot() is None else ctx.build.tree))
-        guard_after = gen_fiber.extract(ctx.build.tree)["guard_after"]
+        xf = gen_fiber.extract(ctx.build.tree)
+        guard_after = xf["guard_after"]
+        # flags of Gen/Fiber.lean that are PREMISES of theorems (the proofs `simp only [flag, if_true]`): name the flag and the
+        # theorem when the current tree no longer has the shape, instead of leaving only a lake error in a lemma file
+        for key, flag, what, thms in (
+                ("chain_alive", "chainAliveMarked", "the chain-continuation branch of janet_continue_no_check no longer marks the fiber ALIVE before it continues its child",
+                 "status_monotone (+ _from_init, _guarded, _guarded_sched), finished_is_forever, reachable_inv via Invariant.contNoCheck_res"),):
+            if not xf.get(key):
+                broken.append("translator flag %s = false: %s; premise of %s" % (flag, what, thms))
+                ctx.broken.append(broken[-1])
+                ctx.say(broken[-1])
+        if not xf.get("walk_refuses_root"):
+            ctx.say("translator flag cancelWalkRefusesRoot = false: janet_continue_signal's walk does not refuse a task of the event loop in the child chain "
+                    "(finding 6, corpus/C05/cancel-chain-root-task.janet); cancel_root_chain_refused_unmarked holds vacuously on this tree")
     except ExtractError as e:
         broken.append("translator tools/gen/fiber.py: %s" % e)
         ctx.broken.append(broken[-1])
